@@ -335,6 +335,16 @@ func (x *exec) step(st *State, fr *Frame, b *ssa.BasicBlock, ins ssa.Instruction
 			r := e.newRef(st, allocHint(ins))
 			st.regs[ins] = Value{T: ins.Type(), L: []smt.Term{r}}
 			e.storePtr(st, &Ptr{Kind: PtrHeap, Base: r, Root: elem}, e.zero(elem))
+			if addrPrivate(ins, 0) {
+				// a named local variable that lives in a heap cell
+				if st.localCells == nil {
+					st.localCells = map[string][]smt.Term{}
+				}
+				for _, l := range e.leaves(elem) {
+					k := objKeyPrefix(elem) + l.Path
+					st.localCells[k] = append(st.localCells[k], r)
+				}
+			}
 			if st.nonNull == nil {
 				st.nonNull = map[string]bool{}
 			}
@@ -561,6 +571,53 @@ func (x *exec) step(st *State, fr *Frame, b *ssa.BasicBlock, ins ssa.Instruction
 		unsupported("range over map or string")
 	}
 	unsupported("instruction %T", ins)
+	return true
+}
+
+// addrPrivate reports whether the address held by v (an Alloc or a FreeVar bound to one) is only ever used to load,
+// store, take field addresses for loads/stores, or be captured by closures that do the same: then no code outside
+// the function and its closures can reach the cell.
+func addrPrivate(v ssa.Value, depth int) bool {
+	if depth > 4 {
+		return false
+	}
+	refs := v.Referrers()
+	if refs == nil {
+		return false
+	}
+	for _, r := range *refs {
+		switch x := r.(type) {
+		case *ssa.DebugRef:
+		case *ssa.UnOp:
+			// load
+		case *ssa.Store:
+			if x.Val == v {
+				return false // the address itself is stored somewhere
+			}
+		case *ssa.FieldAddr:
+			if !addrPrivate(x, depth+1) {
+				return false
+			}
+		case *ssa.MakeClosure:
+			fn := x.Fn.(*ssa.Function)
+			for i, b := range x.Bindings {
+				if b == v {
+					if i >= len(fn.FreeVars) || !addrPrivate(fn.FreeVars[i], depth+1) {
+						return false
+					}
+				}
+			}
+		case ssa.CallInstruction:
+			// intrinsics on fields (atomics, mutexes) keep the address private
+			c := x.Common()
+			if f := c.StaticCallee(); f != nil && isIntrinsicKey(FuncKey(f)) && len(c.Args) > 0 && c.Args[0] == v {
+				continue
+			}
+			return false
+		default:
+			return false
+		}
+	}
 	return true
 }
 
